@@ -4,6 +4,7 @@ import (
 	"bytes"
 	"crypto/sha1"
 	"crypto/sha256"
+	"math/big"
 
 	"verif/ref/refsighash"
 	"verif/ref/reftx"
@@ -82,8 +83,9 @@ const (
 	QuirkTaprootZeroDigest
 	// FindAndDelete searches for CompactSize(len)||sig instead of the script push of sig.
 	QuirkFindAndDeleteCompactSize
-	// ECDSA signatures are parsed with fixed offsets: single-byte lengths, sequence length must
-	// equal lenR+lenS+4 (trailing bytes tolerated).
+	// ECDSA signatures are parsed with fixed offsets from the signature INCLUDING its hash-type
+	// byte: single-byte lengths, sequence length must equal lenR+lenS+4, bytes after S tolerated
+	// (so the hash-type byte can double as the last byte of S); no lax-DER leniency.
 	QuirkFixedOffsetDER
 	// LOW_S compares the S value as written with n/2; Core first maps a signature whose R or S
 	// is >= n (or longer than 32 bytes) to the all-zero signature, which counts as low.
@@ -288,25 +290,30 @@ func (c *checker) checkECDSASignature(sigIn, pub, scriptCode []byte, sv sigVersi
 	if c.tr != nil {
 		c.tr.ECDSA++
 	}
-	if c.quirks&QuirkFixedOffsetDER != 0 && !fixedOffsetDEROK(sigIn) {
-		return false
+	if c.quirks&QuirkFixedOffsetDER != 0 {
+		// the deviating parser reads the signature INCLUDING its hash-type byte
+		r, s, ok := fixedOffsetDERParse(sigIn)
+		if !ok {
+			return false
+		}
+		return verifyECDSARS(pub, r, s, digest)
 	}
 	return VerifyECDSA(pub, sig, digest)
 }
 
-func fixedOffsetDEROK(sig []byte) bool {
+func fixedOffsetDERParse(sig []byte) (r, s *big.Int, ok bool) {
 	if len(sig) < 5 || sig[0] != 0x30 {
-		return false
+		return nil, nil, false
 	}
 	lenr := int(sig[3])
 	if lenr == 0 || 5+lenr >= len(sig) || sig[lenr+4] != 0x02 {
-		return false
+		return nil, nil, false
 	}
 	lens := int(sig[lenr+5])
 	if lens == 0 || int(sig[1]) != lenr+lens+4 || lenr+lens+6 > len(sig) || sig[2] != 0x02 {
-		return false
+		return nil, nil, false
 	}
-	return true
+	return new(big.Int).SetBytes(sig[4 : 4+lenr]), new(big.Int).SetBytes(sig[6+lenr : 6+lenr+lens]), true
 }
 
 func (c *checker) checkSchnorrSignature(sig, pub []byte, sv sigVersion, ed *execData) ScriptError {
